@@ -17,7 +17,9 @@ package main
 //   - no node is presented before (one of) its parent(s) (else order:<Type>@<Parent.Field>)
 //   - with a callback that fails at its k-th call, Walk returns that very error
 //     (the same error value: err == stop; a new error wrapping it is not "that
-//     error") and the callback is never invoked again  (else abort-*:...)
+//     error") and the callback is never invoked again  (else abort-*:...); the
+//     callback's error is of many kinds (c17_r6errs.go: plain, wrapped, host types,
+//     parse/run errors with and without position, typed nil pointers, sentinels)
 //   - Walk does not panic                               (else walk-panic:<site>)
 //   - what the callback is handed is a node: a nil interface, a typed nil pointer
 //     (a nil *ast.StmtsStmt stored in an ast.Stmt field passes every `== nil`
@@ -38,7 +40,6 @@ package main
 // lists of thousands of members.
 
 import (
-	"errors"
 	"fmt"
 	goast "go/ast"
 	goparser "go/parser"
@@ -764,7 +765,10 @@ var (
 	c17ViolCount int // violations found by this process (written or not)
 )
 
-func c17Viol(c *wk.Case, sig, detail, src string) {
+func c17Viol(c *wk.Case, sig, detail, src string) { c17ViolX(c, sig, detail, src, nil) }
+
+// c17ViolX: c17Viol with more fields for the witness (position and kind of the error of a stopped walk).
+func c17ViolX(c *wk.Case, sig, detail, src string, extra map[string]interface{}) {
 	c17ViolCount++
 	sig = c17SigPrefix + sig
 	c17Reported[sig]++
@@ -773,6 +777,9 @@ func c17Viol(c *wk.Case, sig, detail, src string) {
 		return
 	}
 	in := map[string]interface{}{"src": src}
+	for k, v := range extra {
+		in[k] = v
+	}
 	if c17HistInfo != nil {
 		h := c17HistInfo()
 		in["history"] = h
@@ -1000,40 +1007,13 @@ func c17Check(c *wk.Case, src string, root ast.Stmt, whole bool, origin string) 
 		sort.Ints(ks)
 		c.Tag("abort-sweep:sampled")
 	}
+	// the kind of error the callback returns rotates over c17ErrKinds (c17_r6errs.go:
+	// errors.New, wrapped, joined, custom pointer/value/string/slice types, parse and run
+	// errors with and without a position, typed nil pointers, well-known sentinels)
 	for _, k := range ks {
-		stop := errors.New("c17 stop at call " + strconv.Itoa(k))
-		r2 := &c17Rec{failAt: k, stop: stop}
-		c.Begin(map[string]interface{}{"src": src, "op": "walk-abort", "k": k})
-		o2 := c17Walk(root, r2.cb)
-		c.Events(r2.calls)
-		at := c17TypeName(rec.seq[k-1])
-		switch {
-		case o2.panicked:
-			c17Viol(c, "walk-panic:"+o2.psig, fmt.Sprintf("astutil.Walk panicked after the callback failed at call %d: %s", k, o2.pval), src)
-		case r2.calls < k:
-			c.Inconclusive("walk-not-repeatable", fmt.Sprintf("second walk made %d calls, first %d", r2.calls, total), map[string]interface{}{"src": src, "k": k})
-		case r2.calls > k:
-			where := "synthetic:" + c17TypeName(r2.after)
-			if c17Comparable(r2.after) {
-				if s, ok := slotOf[r2.after]; ok {
-					where = s
-				}
-			}
-			c17Viol(c, "abort-continued:"+where,
-				fmt.Sprintf("callback returned an error at call %d (%s) but was invoked %d more times; the walk went on with %s in %s; Walk returned %v",
-					k, at, r2.calls-k, c17TypeName(r2.after), where, o2.err), src)
-		case o2.err == nil:
-			c17Viol(c, "abort-error-lost:"+at, fmt.Sprintf("callback returned an error at call %d (%s); Walk stopped but returned nil", k, at), src)
-		case o2.err != stop:
-			// "returns that error": the very error value the callback returned, not another
-			// error that mentions, copies or wraps it (a caller comparing err == itsSentinel,
-			// as one does with io.EOF-style sentinels, must see it).
-			how := "a different error"
-			if errors.Is(o2.err, stop) {
-				how = "a new error that wraps it"
-			}
-			c17Viol(c, "abort-error-replaced:"+at, fmt.Sprintf("callback returned %q at call %d (%s); Walk returned %s: %q (%T)%s", stop.Error(), k, at, how, o2.err.Error(), o2.err, c17Enclosing(nodes, parents, rec.seq[k-1])), src)
-		}
+		k := k
+		c17AbortJudge(c, src, root, k, total, c17KindFor(src, k), rec.seq, slotOf,
+			func() string { return c17Enclosing(nodes, parents, rec.seq[k-1]) })
 	}
 	c.Count("abort_points_checked", len(ks))
 
@@ -1425,7 +1405,11 @@ func init() {
 					"Every stopped walk is judged (k calls, the callback's error returned), a small tree is walked completely after every 256 of them; signatures found after the first stopped walk carry the prefix after-stopped-walks:. " +
 					"For every program: node set + parent relation by reflection (astx) versus the sequence " +
 					"astutil.Walk presents; a panic of Walk (walk-panic:<site>) and a callback argument that is nil, a typed nil pointer (presented-nil:<Type>) or no node value at all (presented-non-node:<Type>) are violations; " +
-					"after a Walk error or panic every statement of the program is judged again on its own; then the callback fails at call k for every k (programs with <=64 calls) or a PRNG sample of k. " +
+					"after a Walk error or panic every statement of the program is judged again on its own; then the callback fails at call k for every k (programs with <=64 calls) or a PRNG sample of k; " +
+					"the error it returns is of a kind that rotates with k over the list of c17_r6errs.go (errors.New with and without text, fmt.Errorf %w wrappers of a plain and of a parse error, errors.Join, host types: pointer, comparable struct value, string, uncomparable slice, a type whose Is answers true to everything, a type with a position of its own; " +
+					"*parser.Error without position / with position / line only / with file name and Fatal / zero value / one made by the parser, *vm.Error with and without position, typed nil pointers (*parser.Error, *vm.Error, a host type with a nil-safe Error method) in a non-nil error interface, " +
+					"the sentinels io.EOF, filepath.SkipDir, fs.SkipAll, context.Canceled, context.DeadlineExceeded, vm.ErrBreak/ErrContinue/ErrReturn/ErrInterrupt); the walk must make exactly k calls, return that very value and leave it as it was (abort-error-modified otherwise); a violation seen with another kind than errors.New is tried again with errors.New and reported under <signature>/<kind> only when errors.New passes or fails differently. " +
+					"phase errkinds (deterministic): every pinned program and every template on its own (expression templates also as right-hand side and as argument), the callback failing at every call position with every kind of error in turn; its last case demands that every node type of the ast package occurs in these programs (no-coverage:errkinds:<Type>). " +
 					"An evaluation is non-trivial when the program parsed to >=3 nodes; distinct = distinct source text. coverage_tags cell:<Type>@<Parent.Field> is the coverage matrix.",
 				Assumptions: []string{
 					"node identity is pointer identity; the node set is what reflection reaches from the root through fields of package ast (reflect.Value fields are not nodes)",
@@ -1434,12 +1418,15 @@ func init() {
 					"a nil interface or typed nil pointer handed to the callback is not a node (the statement speaks of presenting nodes of the tree), so it is reported; a field holding a typed nil pointer contributes no node to the reflected set",
 					"the empty program (nil tree, or a root that is a typed nil pointer) must be walked without error, panic or callback argument that is not a node",
 					"'returns that error' is judged by identity: Walk must return the very error value the callback returned (err == stop); an error that wraps it (errors.Is) or copies its text is a different error",
+					"'an error' is any non-nil value of the error interface, whatever its dynamic type: a sentinel of another package (io.EOF, filepath.SkipDir, vm.ErrBreak) has no meaning of its own for Walk, and a typed nil pointer in a non-nil interface is an error (err != nil); identity of an error whose type cannot be compared with == (a slice type) is the same dynamic type, backing array and length; the oracle never calls a method of the callback's error to decide",
+					"'returns that error' includes that the value is still what the callback returned: a walk that writes to the error (fills in a position) and returns the same pointer is reported as abort-error-modified",
 					"deep/deepgen: a program nested thousands of levels deep or holding lists of thousands of members is a parseable program like any other; programs the parser rejects (or cannot parse) are outside the domain",
 					"programs that do not parse are outside the domain",
 					"history: the statement holds for every walk of a process, whatever the earlier walks of that process did; stopping a walk by a callback error is the documented way of ending it, so any number of stopped walks may precede a complete one. Callbacks that panic are not part of any history (the statement is silent about them)",
 				},
 				Phases: []fw.Phase{
 					{Name: "matrix", Cases: nFixed + 1, Chunk: (nFixed + 16) / 16, TimeoutS: 600},
+					{Name: "errkinds", Cases: c17ErrKindCases(), Chunk: (c17ErrKindCases() + 3) / 4, TimeoutS: 600, MemMB: 3072},
 					{Name: "corpus", Cases: c17CorpusCases, Chunk: 2, TimeoutS: 600},
 					{Name: "gen", Cases: nGen, Chunk: (nGen + 63) / 64, TimeoutS: 900},
 					// deep trees: few workers at a time, address space bounded (a runaway input must
@@ -1467,6 +1454,8 @@ func init() {
 				for _, src := range list[c.Index*c17FixedPerCase : hi] {
 					c17Program(c, src, "matrix")
 				}
+			case "errkinds":
+				c17RunErrKinds(c)
 			case "corpus":
 				sc := corpus.Scripts()
 				for i := c.Index; i < len(sc); i += c17CorpusCases {
